@@ -327,23 +327,31 @@ func (w *World) operandComparisons(h *ssa.Function, left, right ssa.Value) []ope
 func typeGuards(b *ssa.BasicBlock, left, right ssa.Value) string {
 	var gs []string
 	for _, a := range guardAtoms(b) {
-		ex, ok := a.V.(*ssa.Extract)
-		if !ok || ex.Index != 1 {
-			continue
+		var subject ssa.Value
+		var asserted types.Type
+		switch x := a.V.(type) {
+		case *ssa.Extract:
+			if ta, ok := x.Tuple.(*ssa.TypeAssert); ok && x.Index == 1 {
+				subject, asserted = ta.X, ta.AssertedType
+			}
+		case *ssa.Call:
+			// a type predicate of the package: `func isBoolResult(r Result) bool { _, ok := r.(Bool); return ok }`
+			if t := typePredicate(staticCallee(x)); t != nil && len(x.Call.Args) == 1 {
+				subject, asserted = x.Call.Args[0], t
+			}
 		}
-		ta, ok := ex.Tuple.(*ssa.TypeAssert)
-		if !ok {
+		if subject == nil {
 			continue
 		}
 		side := ""
-		if ta.X == left {
+		if subject == left {
 			side = "L"
-		} else if ta.X == right {
+		} else if subject == right {
 			side = "R"
 		} else {
 			continue
 		}
-		n, ok := types.Unalias(ta.AssertedType).(*types.Named)
+		n, ok := types.Unalias(asserted).(*types.Named)
 		if !ok {
 			continue
 		}
@@ -862,4 +870,34 @@ func existentialHelper(fn *ssa.Function) bool {
 		}
 	})
 	return trueOnMatch && falseAfter && !other
+}
+
+// typePredicate: fn has one parameter and does nothing but return the ok of a comma-ok assertion of that parameter to
+// a type: returns that type.
+func typePredicate(fn *ssa.Function) types.Type {
+	if fn == nil || !inRepo(fn) || len(fn.Params) != 1 || len(fn.Blocks) != 1 || fn.Signature.Results().Len() != 1 {
+		return nil
+	}
+	var t types.Type
+	for _, in := range fn.Blocks[0].Instrs {
+		switch x := in.(type) {
+		case *ssa.TypeAssert:
+			if !x.CommaOk || x.X != ssa.Value(fn.Params[0]) || t != nil {
+				return nil
+			}
+			t = x.AssertedType
+		case *ssa.Extract, *ssa.DebugRef:
+		case *ssa.Return:
+			ex, ok := x.Results[0].(*ssa.Extract)
+			if !ok || ex.Index != 1 {
+				return nil
+			}
+			if ta, ok := ex.Tuple.(*ssa.TypeAssert); !ok || ta.X != ssa.Value(fn.Params[0]) {
+				return nil
+			}
+		default:
+			return nil
+		}
+	}
+	return t
 }
